@@ -1,4 +1,4 @@
-\* trees T4i (a longer branch of the Byzantine producer with a block that fails in execute() at its 1st, 2nd or 3rd position): one observer, blocks in order and children first, no restart (with a restart the unsaved status shows: MC_DposLib_unsaved.cfg): all properties
+\* trees T4i (a longer branch of the Byzantine producer with a block that fails in execute() at its 1st, 2nd or 3rd position): one observer, blocks in order and children first, 2 restarts: all properties
 SPECIFICATION Spec
 CONSTANTS
   N = 4
@@ -6,7 +6,7 @@ CONSTANTS
   Nodes <- Obs1
   Blk0s <- T4iExec
   MaxBlocks = 12
-  MaxRestarts = 0
+  MaxRestarts = 2
   ByzMode = "branch"
   ByzRanges <- R123
   Runs = TRUE
